@@ -5,6 +5,7 @@ package c01
 
 import (
 	"context"
+	"time"
 
 	chandlers "github.com/mimecast/dtail/internal/clients/handlers"
 	"github.com/mimecast/dtail/internal/config"
@@ -248,4 +249,55 @@ func VerifC01bRecords(n, M, P int) {
 		}
 	}
 	verifrt.Assert(hit, "records differ from the file although no known finding applies")
+}
+
+// VerifC01dRealSizes: the real constants (1 MiB MaxLineLength, the 32 KiB
+// transport read of io.Copy) with concrete long lines and one symbolic byte:
+// lines longer than one and than two transport reads, back to back.
+func VerifC01dRealSizes(len1, len2 int) {
+	lg := dlog.VerifInstall(source.Client)
+	config.Server.MaxLineLength = 1024 * 1024
+	var content []byte
+	for i := 0; i < len1; i++ {
+		content = append(content, 'x')
+	}
+	content = append(content, '\n')
+	for i := 0; i < len2; i++ {
+		content = append(content, 'y')
+	}
+	if len2 > 0 {
+		content = append(content, '\n')
+	}
+	content = append(content, verifrt.ByteIn("b", "ab\n"), 'e', 'n', 'd')
+	path := fs.VerifProvide(content)
+	sh := shandlers.VerifNewServerHandler(true, true, true, 2, 2)
+	ch := chandlers.NewClientHandler("srv")
+	cat := fs.NewCatFile(path, "f", sh.VerifServerMessages())
+	// the reader fills the queue; the consumer drains it with the transport buffer of io.Copy
+	done := make(chan error, 1)
+	go func() {
+		done <- cat.Start(context.Background(), lcontext.LContext{}, sh.VerifLines(), regex.NewNoop())
+	}()
+	p := make([]byte, 32*1024)
+	finished := false
+	for !finished || len(sh.VerifLines()) > 0 || sh.VerifPending() > 0 {
+		select {
+		case err := <-done:
+			verifrt.Assert(err == nil, "reading the file failed")
+			finished = true
+		default:
+		}
+		if len(sh.VerifLines()) > 0 || sh.VerifPending() > 0 {
+			k, _ := sh.Read(p)
+			ch.Write(p[:k])
+		} else if !finished {
+			verifrt.Sleep(time.Millisecond)
+		}
+	}
+	var printed []byte
+	for _, c := range lg.Raws {
+		printed = append(printed, c...)
+	}
+	verifrt.Assert(string(printed) == string(content), "dcat --plain output differs from the file content for lines longer than the transport read")
+	verifrt.Reach("real-sizes")
 }
